@@ -939,6 +939,11 @@ def run_corpus(ctx, res, stats, per_program, exhaustive_limit):
     programs, setup, schedule = ITER_WITNESS
     v = one_case(ctx, res, stats, programs, setup, schedule, 'own', 'corpus:iter-witness')
     res.witnessed['iter_not_atomic'] = any(sig == 'iter_not_atomic' for sig, _ in v)
+    try:
+        rec = [r_ for r_ in TRACE_RECORDS[-1]['calls'][1] if r_['op'] == 'iter'][0]
+        stats['iter_witness'] = {'result': rec.get('result'), 'events': [e for e in TRACE_RECORDS[-1].get('events', []) if e[0] == 1][:6]}
+    except Exception:  # noqa
+        stats['iter_witness'] = None
 
 
 def d12_regression(ctx, res, stats):
@@ -1761,7 +1766,33 @@ def run(ctx, big=False):
         schedule_correspondence(ctx, res, 500 if (ctx.quick and not big) else 5000)
         reference_correspondence(ctx, res, 300 if (ctx.quick and not big) else 3000)
         reference_selfcheck(ctx, res, 400 if (ctx.quick and not big) else 4000)
+        iteration_model_correspondence(ctx, res, stats)
     return res
+
+
+def iteration_model_correspondence(ctx, res, stats):
+    """The witness schedule of the torn iteration on the model of model/IterConc.v: statement 0 (MAX(rowid)) reads {a}, the page statement
+    reads {b} (props/C05.v C05_iteration_one_state_refuted).  The implementation, driven along that schedule, must yield what the model
+    yields (nothing), and must have made exactly the two statements the model's `torn_tables` speaks of."""
+    w = stats.get('iter_witness')
+    if not w:
+        return
+    rc, out = fw.coq_eval('c05iter', 'Eval vm_compute in (length (keys_of (iter_among_writers 3 torn_tables)), iter_done 3 torn_tables).\n',
+                          ['DCPrelude', 'Val', 'DiskBase', 'SqlBase', 'Gen_Disk', 'Disk', 'Gen_Sql', 'Cache', 'IterConc', 'IterConcFacts'])
+    flat = ' '.join(out.split())
+    res.count(['iter-model-witness'], nontrivial=True)
+    if rc != 0 or '= (' not in flat:
+        res.disagreements.append(fw.Violation('model-eval', 'evaluation of model/IterConc.v failed: ' + out[-300:], {}, 'correspondence'))
+        return
+    model_len = int(flat.split('= (')[1].split('%')[0].split(',')[0].strip())
+    model_done = 'true' in flat.split('= (')[1].split(')')[0]
+    got = w['result']
+    if isinstance(got, list) and len(got) == model_len and model_done:
+        res.traces_validated += 1
+    else:
+        res.disagreements.append(fw.Violation('iteration_model', 'along the witness schedule (MAX(rowid) read, then b stored and a deleted, then the page read) '
+                                              'the implementation yielded %r, the model yields %d keys (iteration ended: %r)' % (got, model_len, model_done),
+                                              {'check': 'iteration_model', 'observed': w}, 'correspondence'))
 
 
 def reference_correspondence(ctx, res, n):
